@@ -370,20 +370,20 @@ func (r *e1run) observe() *obsStep {
 		for _, s := range m.streams {
 			mp4 := r.cfg.Variant != "mpegts"
 			guesses := []string{
-				segmentPath(s.prefix, s.id, s.nextSegmentID, mp4),   // the segment being written
-				segmentPath(s.prefix, s.id, s.nextSegmentID+1, mp4), // the one after it
-				segmentPath(s.prefix, s.id, s.nextSegmentID, !mp4),  // the other container's extension
+				vSegmentPath(s.prefix, s.id, s.nextSegmentID, mp4),   // the segment being written
+				vSegmentPath(s.prefix, s.id, s.nextSegmentID+1, mp4), // the one after it
+				vSegmentPath(s.prefix, s.id, s.nextSegmentID, !mp4),  // the other container's extension
 			}
 			if !mp4 {
-				guesses = append(guesses, initFilePath(s.prefix, s.id))
+				guesses = append(guesses, vInitFilePath(s.prefix, s.id))
 			}
 			if r.cfg.Variant != "ll" {
 				// parts are an internal unit of the plain fMP4 variant: their URIs are never listed
 				for k := uint64(0); k < s.nextPartID && k < 4; k++ {
-					guesses = append(guesses, partPath(s.prefix, s.id, k), partPath(s.prefix, s.id, s.nextPartID-1-k))
+					guesses = append(guesses, vPartPath(s.prefix, s.id, k), vPartPath(s.prefix, s.id, s.nextPartID-1-k))
 				}
 			} else {
-				guesses = append(guesses, partPath(s.prefix, s.id, s.nextPartID+1)) // beyond the preload hint
+				guesses = append(guesses, vPartPath(s.prefix, s.id, s.nextPartID+1)) // beyond the preload hint
 			}
 			for _, g := range guesses {
 				if _, listed := r.uris[canon(g)]; listed {
